@@ -59,8 +59,8 @@ class C17(Check):
     ASSUMPTIONS = ['lone surrogates are not text and are not generated',
                    'stdlib one-shot codecs are the reference for the meaning of the bytes']
     ANCHORS = ['rxsci/data/codec.py']
-    REQUIRED_TAGS = ENCODINGS + ['cut-in-char', 'empties', 'empty-string', 'astral', 'empty-list', 'string>64Ki', 'alias-spelling', 'chunk-decoding-to-exactly-2**k-characters']
-    REQUIRED_OBSERVED = ['pairs_of_concurrently_alive_subscriptions', 'second_subscriptions_of_one_observable']
+    REQUIRED_TAGS = ENCODINGS + ['cut-in-char', 'empties', 'empty-string', 'astral', 'empty-list', 'string>64Ki', 'alias-spelling', 'chunk-decoding-to-exactly-2**k-characters', 'chunks-as-bytearray', 'chunks-as-memoryview']
+    REQUIRED_OBSERVED = ['triples_of_staggered_subscriptions', 'pairs_of_concurrently_alive_subscriptions', 'second_subscriptions_of_one_observable']
 
     _ops = {}
 
@@ -231,6 +231,21 @@ class C17(Check):
         got = ''.join(d.out)
         if got != text:
             return out.fail('decode-mismatch', want=text, got=got, chunks=chunks)
+        # the same chunks as bytearray objects / as memoryview slices of one buffer (zero-copy re-chunking), consumed twice as the
+        # same objects: same text, and the chunks are left as they were handed over
+        ct = chunking.BYTES_LIKE[(len(cuts) + len(strs) + len(blob)) % 3]
+        if ct != 'bytes' and len(blob) <= (1 << 20):
+            out.tags.append('chunks-as-' + ct)
+            alt = chunking.bytes_like(chunks, ct)
+            before = chunking.frozen(alt)
+            for turn in (1, 2):
+                g = subscribe(rx.from_(alt).pipe(dec_op), Snap())
+                out.observed['bytes_like_runs'] += 1
+                if chunking.frozen(alt) != before:
+                    return out.fail('decode-changed-the-chunks-it-was-given', chunk_type=ct, before=before, after=chunking.frozen(alt))
+                if g.err is not None or not g.done or not all(isinstance(x, str) for x in g.out) or ''.join(g.out) != text:
+                    return out.fail('decode-mismatch-on-%s-chunks' % ct, subscription=turn, want=text, got=''.join(x for x in g.out if isinstance(x, str)),
+                                    error=repr(g.err), chunks=before)
         if len(blob) <= 4096:
             from ..progs import twin_subscriptions
             t = twin_subscriptions(lambda src: src.pipe(dec_op), chunks, out, 'decode', lambda xs: ''.join(xs))
@@ -239,6 +254,13 @@ class C17(Check):
             t = twin_subscriptions(lambda src: src.pipe(enc_op), strs, out, 'encode', lambda xs: b''.join(xs))
             if t is not None and t != blob:
                 return out.fail('encode-differs-with-two-live-subscribers', want=blob, got=t)
+            from ..progs import staggered_subscriptions
+            t = staggered_subscriptions(lambda src: src.pipe(dec_op), chunks, out, 'decode', lambda xs: ''.join(xs))
+            if t is not None and t != text:
+                return out.fail('decode-differs-with-staggered-streams-through-one-operator', want=text, got=t, chunks=chunks)
+            t = staggered_subscriptions(lambda src: src.pipe(enc_op), strs, out, 'encode', lambda xs: b''.join(xs))
+            if t is not None and t != blob:
+                return out.fail('encode-differs-with-staggered-streams-through-one-operator', want=blob, got=t)
         return out
 
     box_done = 0
